@@ -6,7 +6,7 @@
     guards on its way fails — and returns [Exit] for every request outside [P].  The first three theorems
     spell out the two clauses of the property that follow from it. *)
 From Coq Require Import ZArith String List Bool Reals Lia.
-From LP Require Import Num NumR OrdLaws C10_Model C10_Proofs C10_Proofs_Num C10_Proofs_Block C10_Proofs_Hist.
+From LP Require Import Num NumR OrdLaws C10_Model C10_Proofs C10_Proofs_Num C10_Proofs_Block C10_Proofs_Hist C10_Proofs_Nest.
 Import ListNotations.
 Local Open Scope Z_scope.
 
@@ -396,6 +396,58 @@ Theorem C10_save_function_returns (xs : list R) (points : Z) : 2 <= zlen xs < 42
   guard_save_function ROps xs points = Ok tt.
 Proof. exact (save_function_returns_R xs points). Qed.
 Print Assumptions C10_save_function_returns.
+
+(** *** the same clauses when the request is made from inside a call-back, after an abandoned call, or after other requests
+    in the same process *)
+(** "terminates the process" / "returns normally" for a guarded request made by the integrand of Integrate_2D (e.g. an
+    Interpolation object evaluated outside its table): the process ends iff the method is unknown or the integrand is reached -
+    no pair of limits coincides for the nested methods, always for the Monte Carlo methods - and its request ends it *)
+Theorem C10_request_inside_integrand m (x1 x2 y1 y2 : R) o :
+  process_outcome (integrate_2d_outcome ROps m x1 x2 y1 y2 o) = Exit <->
+  (~ In m methods_1d /\ ~ In m methods_mc) \/
+  (In m methods_1d /\ x1 <> x2 /\ y1 <> y2 /\ o = CbExits) \/
+  (~ In m methods_1d /\ In m methods_mc /\ o = CbExits).
+Proof. exact (request_inside_integrand_2d m x1 x2 y1 y2 o). Qed.
+Print Assumptions C10_request_inside_integrand.
+Theorem C10_request_inside_integrand_1d_3d m (a b x1 x2 y1 y2 z1 z2 : R) o :
+  (integrate_outcome ROps m a b o = CbExits <-> ~ In m methods_1d \/ (a <> b /\ o = CbExits)) /\
+  (integrate_3d_outcome ROps m x1 x2 y1 y2 z1 z2 o = CbExits <->
+   (~ In m methods_1d /\ ~ In m methods_mc) \/
+   (In m methods_1d /\ x1 <> x2 /\ y1 <> y2 /\ z1 <> z2 /\ o = CbExits) \/
+   (~ In m methods_1d /\ In m methods_mc /\ o = CbExits)).
+Proof. exact (conj (integrate_outcome_exits m a b o) (integrate_3d_outcome_exits m x1 x2 y1 y2 z1 z2 o)). Qed.
+Print Assumptions C10_request_inside_integrand_1d_3d.
+(** limits in descending order (a legal request: the sign is swapped) are judged like the same limits in ascending order, and an
+    exception thrown by the integrand reaches the caller: the library neither ends the process nor swallows it *)
+Theorem C10_integration_limits_and_exceptions m (a b x1 x2 y1 y2 : R) o :
+  integrate_outcome ROps m a b o = integrate_outcome ROps m b a o /\
+  integrate_2d_outcome ROps m x1 x2 y1 y2 o = integrate_2d_outcome ROps m x2 x1 y2 y1 o /\
+  (integrate_outcome ROps m a b o = CbThrows <-> In m methods_1d /\ a <> b /\ o = CbThrows).
+Proof. exact (conj (integrate_outcome_sym m a b o) (conj (integrate_2d_outcome_sym m x1 x2 y1 y2 o) (integrate_outcome_throws m a b o))). Qed.
+Print Assumptions C10_integration_limits_and_exceptions.
+(** Find_Root evaluates its function at both ends before it tests the bracket *)
+Theorem C10_request_inside_root_function {T} (Ops : NumOps T) (f : T -> T) xl xr o :
+  find_root_outcome Ops f xl xr o = CbExits <-> o = CbExits \/ (o = CbReturns /\ guard_find_root Ops f xl xr <> Ok tt).
+Proof. exact (find_root_outcome_exits Ops f xl xr o). Qed.
+Print Assumptions C10_request_inside_root_function.
+(** several requests in one process: it goes on iff each of them returns, and a request that follows requests which all
+    returned (or were abandoned by an exception the caller caught) has its own outcome, whatever those requests were *)
+Theorem C10_requests_in_one_process l1 g l2 :
+  (process_session l1 = Ok tt <-> Forall (fun g => g = Ok tt) l1) /\
+  (Forall (fun g => g = Ok tt) l1 -> process_session (l1 ++ g :: l2) = rbind g (fun _ => process_session l2)) /\
+  (Forall (fun g => g = Ok tt) l1 -> process_session (l1 ++ Exit :: l2) = Exit).
+Proof. exact (conj (process_session_ok l1) (conj (process_session_after l1 g l2) (process_session_exit l1 l2))). Qed.
+Print Assumptions C10_requests_in_one_process.
+(** "an interpolation argument outside the tabulated domain" with coinciding arguments: Integrate(x, x) and
+    Local_Minimum/Maximum(x, x) are refused exactly when Interpolate(x) is - there is no short cut in front of the domain test *)
+Theorem C10_coinciding_interpolation_arguments {T} (Ops : NumOps T) (xs : list T) (x : T) : 2 <= zlen xs < 4294967296 ->
+  (guard_interp_integrate Ops xs x x = Exit <-> locate Ops xs x = Exit) /\
+  (guard_interp_integrate Ops xs x x = Ok tt <-> locate Ops xs x <> Exit) /\
+  (nltb Ops x x = false -> (guard_local_extremum Ops xs x x = Exit <-> locate Ops xs x = Exit)).
+Proof.
+  exact (fun H => conj (proj1 (interp_integrate_coinciding Ops xs x H)) (conj (proj2 (interp_integrate_coinciding Ops xs x H)) (local_extremum_coinciding Ops xs x H))).
+Qed.
+Print Assumptions C10_coinciding_interpolation_arguments.
 
 (** *** non-vacuity: concrete requests on both sides of guards *)
 Example C10_examples :
